@@ -287,6 +287,16 @@ class Universe:
         self.pdesc[name] = {"grp": grp, "M": hx(M), "N": hx(N), "S": hx(S)}
         return P
 
+    def deepcopy_paramset(self, name, of):
+        """an equal-but-distinct parameter set: a deep copy of `of` (its own group object, its own elements), described
+        to the specification by the same values - for the specification it IS the same parameter set"""
+        import copy
+        if name not in self.params:
+            self.paramset(of) if of in ("PEd25519", "P1024", "P2048", "P3072") else None
+            self.params[name] = copy.deepcopy(self.params[of])
+            self.pdesc[name] = dict(self.pdesc[of])
+        return self.params[name]
+
     def toy_seeds(self, grp):
         """Seeds for the default parameter set of a toy group.  On tiny integer
         groups the library's default seeds may hit finding F7 (arbitrary_element
